@@ -19,10 +19,22 @@ Definition failure_returned_as_result : bool :=
   follows_in "if self.is_apply_func:" "  exception = self._get_exception(exception_args, err)" run_safely_failure_branch &&
   has "  return (exception, False, True, False)" run_safely_failure_branch.
 Definition interrupted_task_sends_nothing : bool := has "return (None, False, False, False)" run_safely_interrupt_branch.
+Fixpoint pos_of (x : string) (l : list string) : nat :=
+  match l with [] => 0 | y :: r => if String.eqb x y then 0 else S (pos_of x r) end.
+(* death watch, APPLY branch: the job is failed, then the worker is replaced; the exception event is
+   only raised in the other (map) branch *)
+Definition death_in_apply_restarts_worker : bool :=
+  has "      job._set(success=False, result=err)" death_handler_body &&
+  (pos_of "      job._set(success=False, result=err)" death_handler_body <? pos_of "      if job_type == JobType.APPLY:" death_handler_body) &&
+  (pos_of "      if job_type == JobType.APPLY:" death_handler_body <? pos_of "        self._start_worker(worker_id)" death_handler_body) &&
+  (pos_of "        self._start_worker(worker_id)" death_handler_body <? pos_of "      else:" death_handler_body) &&
+  (pos_of "      else:" death_handler_body <? pos_of "        self._worker_comms.signal_exception_thrown(job_id)" death_handler_body) &&
+  has "        self._worker_comms.signal_exception_thrown(job_id)" death_handler_body.
 
-Inductive oc := OOk (v : Z) | ORaise (e : Z) | OBlock.       (* what the user function does with this task *)
-Inductive jphase := JQueued | JRunning | JSent (ok : bool) (v : Z) | JGone.
+Inductive oc := OOk (v : Z) | ORaise (e : Z) | OBlock | ODie.       (* what the user function does with this task *)
+Inductive jphase := JQueued | JRunning | JSent (ok : bool) (v : Z) | JGone | JDead.   (* JDead: the process was killed inside the task *)
 Definition TIMEOUT : Z := (-7)%Z.
+Definition DIED : Z := (-9)%Z.
 
 Record job := mkJob {
   j_w : nat; j_oc : oc; j_to : bool; j_cbs : bool * bool;         (* worker, outcome, has a timeout, (callback, error_callback) given *)
@@ -42,11 +54,11 @@ Definition upd {A} (l : list A) (i : nat) (x : A) : list A :=
   firstn i l ++ match skipn i l with [] => [] | _ :: t => x :: t end.
 
 (* worker FIFO: job i may start when no earlier job of the same worker is still queued or running *)
-Definition busy (j : job) : bool := match j_phase j with JQueued | JRunning => true | _ => false end.
+Definition busy (j : job) : bool := match j_phase j with JQueued | JRunning | JDead => true | _ => false end.
 Definition may_start (l : list job) (i : nat) (w : nat) : bool :=
   forallb (fun j => negb ((j_w j =? w) && busy j)) (firstn i l).
 
-Inductive alabel := ASubmit (w : nat) (o : oc) (to cb ecb : bool) | AWork (i : nat) | ARes (i : nat) | ATimeout (i : nat).
+Inductive alabel := ASubmit (w : nat) (o : oc) (to cb ecb : bool) | AWork (i : nat) | ARes (i : nat) | ATimeout (i : nat) | ADeath (i : nat).
 
 Definition astep (s : ast) (a : alabel) : option ast :=
   match a with
@@ -64,6 +76,7 @@ Definition astep (s : ast) (a : alabel) : option ast :=
                             then Some (mkA (upd (jobs s) i (with_phase j (JSent false e))) (exn s))
                             else Some (mkA (upd (jobs s) i (with_phase j JGone)) true)
               | OBlock => None
+              | ODie => Some (mkA (upd (jobs s) i (with_phase j JDead)) (exn s))
               end
           | _ => None
           end
@@ -87,6 +100,17 @@ Definition astep (s : ast) (a : alabel) : option ast :=
                 Some (mkA (upd (jobs s) i (if j_cache j then set_result j false TIMEOUT JGone else with_phase j JGone)) (exn s))
               else None
           | _, _ => None
+          end
+      | None => None
+      end
+  | ADeath i =>                                     (* death watch: the job the dead worker was running fails, a replacement takes over its queue *)
+      match nth_error (jobs s) i with
+      | Some j =>
+          match j_phase j with
+          | JDead => if death_in_apply_restarts_worker
+                     then Some (mkA (upd (jobs s) i (if j_cache j then set_result j false DIED JGone else with_phase j JGone)) (exn s))
+                     else Some (mkA (upd (jobs s) i (with_phase j JGone)) true)
+          | _ => None
           end
       | None => None
       end
